@@ -677,7 +677,10 @@ Proof. unfold undo_seq. apply flat_map_app. Qed.
 Lemma slot_owner l order p s : undo_hyps l -> Permutation order (losers l) ->
   existsb (fun r => on_slot p s r && memN (l_txn r) (losers l)) l = true ->
   exists B v0,
-    filter (on_slot p s) (undo_seq l order) = rev B /    slot_val l p s = fold_left slot_step (map l_kind B) v0 /    spre_seq v0 (map l_kind B) /    v0 = committed_val l p s.
+    filter (on_slot p s) (undo_seq l order) = rev B /\
+    slot_val l p s = fold_left slot_step (map l_kind B) v0 /\
+    spre_seq v0 (map l_kind B) /\
+    v0 = committed_val l p s.
 Proof.
   intros [Hl Hc Hst Hf Hna Ho Hmk] Hperm Eex.
   assert (Hin : forall t, In t order -> In t (losers l))
@@ -742,17 +745,18 @@ Proof.
     rewrite (Hpost1 r Hr Hsr). exact Hm1.
   - (* the committed value is the value before the owner's first record *)
     rewrite committed_val_eq. set (f := nonloser l).
-    rewrite El, filter_app, slot_val_eq, fold_left_app, <- slot_val_eq.
-    rewrite sv_fold_untouched.
+    transitivity (slot_val (filter f pre) p s).
     + rewrite El in Hord. apply ord_app in Hord. destruct Hord as [Hord1 _].
       symmetry. apply slot_val_filter; [exact Hord1|].
       intros r Hr Hsr. specialize (Hpre r Hr). rewrite Hsr in Hpre. cbn [andb] in Hpre.
       unfold f, nonloser. rewrite Hpre. reflexivity.
-    + intros r Hr. apply filter_In in Hr. apply Hnn. tauto.
-    + intros r Hr. apply filter_In in Hr. destruct Hr as [Hr Hnl]. unfold f, nonloser in Hnl.
-      destruct (on_slot p s r) eqn:Es; [exfalso | reflexivity].
-      assert (l_txn r = t) by (destruct Hr as [<-|Hr]; [reflexivity | apply Hpost1; assumption]).
-      rewrite H in Hnl. fold t in Hm1. rewrite Hm1 in Hnl. discriminate.
+    + rewrite El, filter_app. rewrite (slot_val_eq (filter f pre ++ _)), fold_left_app, <- slot_val_eq.
+      symmetry. apply sv_fold_untouched.
+      * intros r Hr. apply filter_In in Hr. apply Hnn. tauto.
+      * intros r Hr. apply filter_In in Hr. destruct Hr as [Hr Hnl]. unfold f, nonloser in Hnl.
+        destruct (on_slot p s r) eqn:Es; [exfalso | reflexivity].
+        assert (l_txn r = t) by (destruct Hr as [<-|Hr]; [reflexivity | apply Hpost1; assumption]).
+        rewrite H in Hnl. fold t in Hm1. rewrite Hm1 in Hnl. discriminate.
 Qed.
 
 (** The value of a slot after the undo of the unfinished transactions, given that the
@@ -782,3 +786,756 @@ Proof.
     + intros t r Ht Hr Et. destruct (on_slot p s r) eqn:Es; [|reflexivity].
       specialize (Hnone r Hr Es). apply memN_false in Hnone. exfalso. apply Hnone. rewrite Et. apply Hin. exact Ht.
 Qed.
+
+(* ------------------------------------------------------------------ *)
+(** * When the undo operations succeed *)
+
+Definition nz (v : aentry) : Prop := match v with Some (b, _) => blen b <> 0 | None => True end.
+Definition rows_nz (a : astate) : Prop := forall s, nz (aval a s).
+
+Lemma aval_some a s x : aval a s = Some x -> a_at a s = Some (Some x).
+Proof. unfold aval. destruct (a_at a s) as [e|]; [intros ->; reflexivity | discriminate]. Qed.
+
+Lemma aval_nil s : aval [] s = None.
+Proof. unfold aval, a_at. destruct (N.to_nat s); reflexivity. Qed.
+
+Lemma astep_nz a o : rows_nz a -> rows_nz (fst (astep a o)).
+Proof.
+  intros H. destruct o as [b|i b|i b r|i|i|i|i]; cbn [astep].
+  - destruct (N.eqb_spec (blen b) 0) as [|Hb]; [exact H|].
+    destruct (a_free a <? blen b + size_tuple); [exact H|]. cbn [fst]. intros s.
+    destruct (a_first_free_spec a 0) as (n & H1 & H2 & _).
+    rewrite aval_set by (rewrite H1; lia).
+    destruct (a_first_free a 0 =? s); [exact Hb | apply H].
+  - destruct (N.eqb_spec (blen b) 0) as [|Hb]; [exact H|].
+    destruct (a_free a <? blen b + size_tuple); [exact H|]. cbn [fst]. intros s.
+    destruct (a_insert_at_slot_spec a i) as [G1 _]. cbv zeta in G1.
+    rewrite aval_set by exact G1.
+    destruct ((if a_available a i then i else a_first_free a 0) =? s); [exact Hb | apply H].
+  - destruct (N.eqb_spec (blen b) 0) as [|Hb]; [exact H|].
+    destruct (a_at a i) as [[[old [|]]|]|] eqn:E; try exact H.
+    destruct (a_free a + blen old <? blen b); [exact H|].
+    destruct ((blen b <? blen old) && negb r); [exact H|]. cbn [fst]. intros s.
+    rewrite (aval_set_at _ _ _ _ _ E). destruct (i =? s); [exact Hb | apply H].
+  - destruct (a_at a i) as [[[b [|]]|]|] eqn:E; try exact H. cbn [fst]. intros s.
+    rewrite (aval_set_at _ _ _ _ _ E). destruct (i =? s); [|apply H].
+    specialize (H i). unfold aval in H. rewrite E in H. exact H.
+  - destruct (a_at a i) as [[e|]|] eqn:E; try exact H. cbn [fst]. intros s.
+    rewrite (aval_set_at _ _ _ _ _ E). destruct (i =? s); [exact I | apply H].
+  - destruct (a_at a i) as [[[b m]|]|] eqn:E; try exact H. cbn [fst]. intros s.
+    rewrite (aval_set_at _ _ _ _ _ E). destruct (i =? s); [|apply H].
+    specialize (H i). unfold aval in H. rewrite E in H. exact H.
+  - destruct (a_at a i) as [[[b [|]]|]|]; exact H.
+Qed.
+
+Lemma new_content_nz r pg : rows_nz (pslots pg) -> rows_nz (pslots (new_content r pg)).
+Proof.
+  intros H. unfold new_content.
+  destruct (l_kind r); cbn [op_of pslots]; try exact H; try (apply astep_nz; exact H).
+  intros s. rewrite aval_nil. exact I.
+Qed.
+
+Lemma replay_nz : forall l ps, (forall p, rows_nz (pslots (get_page ps p))) ->
+  forall p, rows_nz (pslots (get_page (replay l ps) p)).
+Proof.
+  induction l as [|r l IH]; intros ps H; [exact H|].
+  cbn [replay fold_left]. apply IH. intros p.
+  destruct (page_of (l_kind r)) as [p'|] eqn:Ep.
+  - destruct (N.eq_dec p' p) as [->|Hne].
+    + rewrite get_do_same by exact Ep. apply new_content_nz. apply H.
+    + rewrite get_do_other by (rewrite Ep; congruence). apply H.
+  - rewrite do_rec_nopage by exact Ep. apply H.
+Qed.
+
+Lemma update_old_nz l r p s old new : log_ok l = true -> In r l ->
+  l_kind r = KUpdate p s old new -> blen old <> 0.
+Proof.
+  intros Hl Hr Ek. apply in_split in Hr. destruct Hr as (pre & post & El).
+  unfold log_ok in Hl. rewrite El in Hl. apply log_ok_from_app in Hl. destruct Hl as [_ Hl].
+  apply log_ok_from_cons in Hl. destruct Hl as (_ & Hrec & _).
+  assert (Hnz : rows_nz (pslots (get_page (replay pre []) p))).
+  { apply replay_nz. intros q s'. cbn. rewrite aval_nil. exact I. }
+  unfold rec_ok in Hrec. rewrite Ek in Hrec. cbn [astep] in Hrec.
+  destruct (blen new =? 0); [discriminate|].
+  destruct (a_at (pslots (get_page (replay pre []) p)) s) as [[[old' [|]]|]|] eqn:E; try discriminate.
+  destruct (a_free (pslots (get_page (replay pre []) p)) + blen old' <? blen new); [discriminate|].
+  destruct ((blen new <? blen old') && negb true); [discriminate|].
+  cbn [snd] in Hrec. apply eqb_bytes_eq in Hrec. subst old'.
+  specialize (Hnz s). unfold aval in Hnz. rewrite E in Hnz. exact Hnz.
+Qed.
+
+Lemma a_undo_succeeds a k p0 s0 o v' : slot_of k = Some (p0, s0) -> inv_of k = Some o ->
+  spre v' k -> lpre v' k -> aval a s0 = slot_step v' k ->
+  (match k with KUpdate _ _ old new => blen old <> 0 /\ blen old <= blen new | _ => True end) ->
+  out_ok (snd (astep a o)) = true.
+Proof.
+  destruct k as [p' s' b|p' s'|p' s' b|p' s'|p' s' old new| | | |pv p'| |]; cbn [slot_of inv_of spre lpre slot_step];
+    intros Hs Ho H1 H2 Hv Hu; try discriminate; try contradiction; inversion Hs; inversion Ho; subst; clear Hs Ho;
+    cbn [astep].
+  - apply aval_some in Hv. rewrite Hv. reflexivity.
+  - destruct H1 as [b ->]. apply aval_some in Hv. rewrite Hv. reflexivity.
+  - destruct H2 as [b ->]. apply aval_some in Hv. rewrite Hv. reflexivity.
+  - apply aval_some in Hv. rewrite Hv. destruct Hu as [Hu1 Hu2].
+    destruct (N.eqb_spec (blen old) 0) as [|_]; [contradiction|].
+    destruct (N.ltb_spec (a_free a + blen new) (blen old)) as [Hlt|_]; [lia|].
+    rewrite andb_false_r. reflexivity.
+Qed.
+
+Lemma spre_seq_app : forall ks1 ks2 v,
+  spre_seq v (ks1 ++ ks2) <-> spre_seq v ks1 /\ spre_seq (fold_left slot_step ks1 v) ks2.
+Proof.
+  induction ks1 as [|k ks1 IH]; intros ks2 v; cbn [app spre_seq fold_left]; [tauto|].
+  rewrite IH. tauto.
+Qed.
+
+Lemma undo_seq_in l order r : In r (undo_seq l order) ->
+  In r l /\ In (l_txn r) order /\ has_lsn (l_kind r) = true.
+Proof.
+  intros Hr. unfold undo_seq in Hr. apply in_flat_map in Hr. destruct Hr as (t & Ht & Hr).
+  apply in_rev in Hr. unfold txn_recs in Hr. apply filter_In in Hr. destruct Hr as [Hr Hf].
+  apply andb_true_iff in Hf. destruct Hf as [Hh Et]. apply N.eqb_eq in Et. subst t. tauto.
+Qed.
+
+Lemma undo_step_ok l order ps U1 r U2 : undo_hyps l -> loser_updates_grow l = true ->
+  Permutation order (losers l) -> (forall p s, page_val ps p s = slot_val l p s) ->
+  undo_seq l order = U1 ++ r :: U2 ->
+  forallb out_ok (undo_list_outs U1 ps) = true ->
+  forallb out_ok (undo_out (fold_left undo_rec U1 ps) r) = true.
+Proof.
+  intros Hyp Hg Hperm Hps EU Hok1.
+  assert (Hin : forall t, In t order -> In t (losers l))
+    by (intros t Ht; eapply Permutation_in; eassumption).
+  assert (HrU : In r (undo_seq l order)) by (rewrite EU; apply in_or_app; right; left; reflexivity).
+  destruct (undo_seq_in _ _ _ HrU) as (Hrl & Hrt & Hrh).
+  assert (Hlos : memN (l_txn r) (losers l) = true) by (apply memN_In; apply Hin; exact Hrt).
+  unfold undo_out. destruct (page_of (l_kind r)) as [p|] eqn:Ep; [|reflexivity].
+  destruct (inv_of (l_kind r)) as [o|] eqn:Ei; [|reflexivity].
+  cbn [forallb]. rewrite andb_true_r.
+  destruct (page_slot_or_new _ _ Ep) as [(s & Hs & _)|(pv & Ek)]; [|rewrite Ek in Ei; discriminate].
+  assert (Hos : on_slot p s r = true) by (unfold on_slot; rewrite Hs, !N.eqb_refl; reflexivity).
+  assert (Eex : existsb (fun r => on_slot p s r && memN (l_txn r) (losers l)) l = true)
+    by (apply existsb_exists; exists r; split; [exact Hrl | rewrite Hos, Hlos; reflexivity]).
+  destruct (slot_owner l order p s Hyp Hperm Eex) as (B & v0 & E1 & E2 & E3 & _).
+  rewrite EU, filter_app in E1. cbn [filter] in E1. rewrite Hos in E1.
+  set (F1 := filter (on_slot p s) U1) in *. set (F2 := filter (on_slot p s) U2) in *.
+  assert (EB : B = rev F2 ++ r :: rev F1).
+  { rewrite <- (rev_involutive B), <- E1, rev_app_distr. cbn [rev]. rewrite <- app_assoc. reflexivity. }
+  rewrite EB, map_app in E2, E3. cbn [map] in E2, E3.
+  apply spre_seq_app in E3. destruct E3 as [_ E3]. cbn [spre_seq] in E3. destruct E3 as (P1 & P2 & P3).
+  rewrite fold_left_app in E2. cbn [fold_left] in E2.
+  set (v' := fold_left slot_step (map l_kind (rev F2)) v0) in *.
+  assert (Hval : page_val (fold_left undo_rec U1 ps) p s = slot_step v' (l_kind r)).
+  { rewrite (undo_list_slot p s U1 ps); [| |exact Hok1].
+    - fold F1. rewrite Hps, E2.
+      replace (map (fun r0 => inv_kind (l_kind r0)) F1) with (map inv_kind (rev (map l_kind (rev F1)))).
+      + apply slot_cancel. exact P3.
+      + rewrite <- map_rev, rev_involutive, map_map. reflexivity.
+    - intros x Hx. apply (undo_seq_noapply l order (uh_noapply l Hyp) Hin).
+      rewrite EU. apply in_or_app. left. exact Hx. }
+  rewrite page_val_aval in Hval.
+  apply (a_undo_succeeds _ _ _ _ _ v' Hs Ei P1 P2 Hval).
+  destruct (l_kind r) eqn:Ek; try exact I.
+  split.
+  - eapply update_old_nz; [exact (uh_log l Hyp) | exact Hrl | exact Ek].
+  - unfold loser_updates_grow in Hg. rewrite forallb_forall in Hg. specialize (Hg r Hrl).
+    rewrite Hlos, Ek in Hg. cbn [negb orb] in Hg. lia.
+Qed.
+
+Lemma outs_by_prefix U ps :
+  (forall U1 r U2, U = U1 ++ r :: U2 -> forallb out_ok (undo_list_outs U1 ps) = true ->
+     forallb out_ok (undo_out (fold_left undo_rec U1 ps) r) = true) ->
+  forallb out_ok (undo_list_outs U ps) = true.
+Proof.
+  intros H.
+  assert (G : forall U1 U2, U = U1 ++ U2 -> forallb out_ok (undo_list_outs U1 ps) = true).
+  { induction U1 as [|r U1 IH] using rev_ind; intros U2 E; [reflexivity|].
+    rewrite <- app_assoc in E. cbn [app] in E.
+    specialize (IH _ E). rewrite undo_list_outs_app, forallb_app, IH. cbn [undo_list_outs andb].
+    rewrite app_nil_r. apply (H U1 r U2 E IH). }
+  apply (G U []). symmetry. apply app_nil_r.
+Qed.
+
+Lemma undo_outs_ok_grow l order ps : undo_hyps l -> loser_updates_grow l = true ->
+  Permutation order (losers l) -> (forall p s, page_val ps p s = slot_val l p s) ->
+  forallb out_ok (undo_list_outs (undo_seq l order) ps) = true.
+Proof.
+  intros Hyp Hg Hperm Hps. apply outs_by_prefix. intros U1 r U2 EU Hok1.
+  eapply undo_step_ok; eassumption.
+Qed.
+
+(* ------------------------------------------------------------------ *)
+(** * The theorems *)
+
+Lemma image_wf_parts l disk : image_wf l disk = true ->
+  log_ok l = true /\ chains_ok l = true /\ strict_ok l = true /\ fresh_pages_ok l [] = true /\
+  disk_ok l disk = true /\ no_loser_apply l = true.
+Proof.
+  unfold image_wf. intros H.
+  repeat (apply andb_true_iff in H; let H' := fresh in destruct H as [H H']). tauto.
+Qed.
+
+(** C01 [redo_repeats_history], with the additional hypothesis that records with LSN 0
+    are page creations (false without it: see [redo_repeats_counterexample]) *)
+Lemma redo_repeats_if_lsn0 : forall l disk, log_ok l = true -> lsn0_ok l = true -> disk_ok l disk = true ->
+  forall p, get_page (redo l disk) p = get_page (replay l []) p.
+Proof. intros l disk Hl H0 Hd. apply (redo_repeats_lsn0 l disk Hl H0 Hd). Qed.
+
+(** the same, with [fresh_pages_ok] (part of [image_wf]) instead *)
+Lemma redo_repeats_fresh : forall l disk, log_ok l = true -> fresh_pages_ok l [] = true -> disk_ok l disk = true ->
+  forall p, get_page (redo l disk) p = get_page (replay l []) p.
+Proof. intros l disk Hl Hf Hd. apply redo_repeats_if_lsn0; try assumption. apply fresh_lsn0_ok; assumption. Qed.
+
+Lemma redo_outs_ok : forall l disk, log_ok l = true -> lsn0_ok l = true -> disk_ok l disk = true ->
+  forallb out_ok (redo_outs l disk) = true.
+Proof. intros l disk Hl H0 Hd. apply (redo_repeats_lsn0 l disk Hl H0 Hd). Qed.
+
+Lemma image_undo_hyps l disk : image_wf l disk = true -> others_ok l = true ->
+  loser_rollbacks_marked l = true -> undo_hyps l.
+Proof.
+  intros H Ho Hm. destruct (image_wf_parts _ _ H) as (H1 & H2 & H3 & H4 & H5 & H6).
+  constructor; assumption.
+Qed.
+
+Lemma redo_slot_val l disk p s : image_wf l disk = true ->
+  page_val (redo l disk) p s = slot_val l p s.
+Proof.
+  intros H. destruct (image_wf_parts _ _ H) as (H1 & H2 & H3 & H4 & H5 & H6).
+  unfold page_val. rewrite (redo_repeats_fresh l disk H1 H4 H5). apply (replay_slot_val l p s H1).
+Qed.
+
+(** C01 [recovery_restores_committed_state] / C02 [atomicity], under the additional
+    hypotheses [others_ok], [loser_rollbacks_marked] and "every undo operation succeeds"
+    (the statement with [image_wf] alone is false: see the counterexamples below) *)
+Theorem recover_committed_if_undo_ok : forall l disk order, image_wf l disk = true ->
+  others_ok l = true -> loser_rollbacks_marked l = true ->
+  Permutation order (losers l) ->
+  forallb out_ok (undo_all_outs l order (redo l disk)) = true ->
+  forall p s, page_val (recover l order disk) p s = committed_val l p s.
+Proof.
+  intros l disk order Hwf Ho Hm Hperm Hok p s.
+  assert (Hyp := image_undo_hyps l disk Hwf Ho Hm).
+  assert (Hin : forall t, In t order -> In t (losers l))
+    by (intros t Ht; eapply Permutation_in; eassumption).
+  destruct (undo_all_seq l (uh_log l Hyp) (uh_chains l Hyp) Ho order (redo l disk) Hin) as [E1 E2].
+  unfold recover. rewrite E1. rewrite E2 in Hok.
+  apply undo_slot_committed; try assumption. apply redo_slot_val. exact Hwf.
+Qed.
+
+(** ... and with "updates of unfinished transactions do not shrink rows" instead of the
+    success of the undo operations, which then follows *)
+Theorem undo_ok_grow : forall l disk order, image_wf l disk = true ->
+  others_ok l = true -> loser_rollbacks_marked l = true -> loser_updates_grow l = true ->
+  Permutation order (losers l) ->
+  forallb out_ok (undo_all_outs l order (redo l disk)) = true.
+Proof.
+  intros l disk order Hwf Ho Hm Hg Hperm.
+  assert (Hyp := image_undo_hyps l disk Hwf Ho Hm).
+  assert (Hin : forall t, In t order -> In t (losers l))
+    by (intros t Ht; eapply Permutation_in; eassumption).
+  destruct (undo_all_seq l (uh_log l Hyp) (uh_chains l Hyp) Ho order (redo l disk) Hin) as [_ E2].
+  rewrite E2. apply undo_outs_ok_grow; try assumption. intros p s. apply redo_slot_val. exact Hwf.
+Qed.
+
+Theorem recover_committed_grow : forall l disk order, image_wf l disk = true ->
+  others_ok l = true -> loser_rollbacks_marked l = true -> loser_updates_grow l = true ->
+  Permutation order (losers l) ->
+  forall p s, page_val (recover l order disk) p s = committed_val l p s.
+Proof.
+  intros l disk order Hwf Ho Hm Hg Hperm. apply recover_committed_if_undo_ok; try assumption.
+  apply undo_ok_grow; assumption.
+Qed.
+
+(** C01 [restart_succeeds]: the redo pass always succeeds; the undo pass under the extra hypotheses *)
+Theorem restart_ok_if_undo_ok : forall l disk order, image_wf l disk = true ->
+  forallb out_ok (undo_all_outs l order (redo l disk)) = true ->
+  forallb out_ok (recover_outs l order disk) = true.
+Proof.
+  intros l disk order Hwf Hok. destruct (image_wf_parts _ _ Hwf) as (H1 & H2 & H3 & H4 & H5 & H6).
+  unfold recover_outs. rewrite forallb_app, Hok, andb_true_r.
+  apply redo_outs_ok; try assumption. apply fresh_lsn0_ok; assumption.
+Qed.
+
+Theorem restart_ok_grow : forall l disk order, image_wf l disk = true ->
+  others_ok l = true -> loser_rollbacks_marked l = true -> loser_updates_grow l = true ->
+  Permutation order (losers l) ->
+  forallb out_ok (recover_outs l order disk) = true.
+Proof.
+  intros l disk order Hwf Ho Hm Hg Hperm. apply restart_ok_if_undo_ok; [exact Hwf|].
+  apply undo_ok_grow; assumption.
+Qed.
+
+(* ------------------------------------------------------------------ *)
+(** * Readings of the committed value (C01 [committed_effects_survive], C02
+      [unfinished_inserts_absent], [unfinished_changes_reverted]) *)
+
+Lemma committed_val_suffix : forall l p s pre post, l = pre ++ post ->
+  forallb (fun r => negb (on_slot p s r) || memN (l_txn r) (losers l)) post = true ->
+  forallb (fun r => match l_kind r with KNewPage _ p' => negb (p' =? p) | _ => true end) post = true ->
+  committed_val l p s = slot_val (filter (fun r => negb (memN (l_txn r) (losers l))) pre) p s.
+Proof.
+  intros l p s pre post El H1 H2. unfold committed_val.
+  set (f := fun r => negb (memN (l_txn r) (losers l))).
+  rewrite El, filter_app, slot_val_eq, fold_left_app, <- slot_val_eq.
+  rewrite forallb_forall in H1, H2. apply sv_fold_untouched.
+  - intros r Hr. apply filter_In in Hr. destruct Hr as [Hr _].
+    specialize (H2 r Hr). rewrite strict_newpage_eq in H2. apply negb_true_iff in H2. exact H2.
+  - intros r Hr. apply filter_In in Hr. destruct Hr as [Hr Hf]. unfold f in Hf.
+    specialize (H1 r Hr). apply negb_true_iff in Hf. rewrite Hf, orb_false_r in H1.
+    apply negb_true_iff in H1. exact H1.
+Qed.
+
+Lemma sv_fold_none p s : forall m, (forall r, In r m -> on_slot p s r = false) ->
+  fold_left (sv_step p s) m None = None.
+Proof.
+  induction m as [|r m IH]; intros H; [reflexivity|]. cbn [fold_left].
+  rewrite sv_step_cases, (H r (or_introl eq_refl)).
+  destruct (is_newpage p r); apply IH; intros x Hx; apply H; right; exact Hx.
+Qed.
+
+Lemma committed_val_losers_only : forall l p s,
+  forallb (fun r => negb (on_slot p s r) || memN (l_txn r) (losers l)) l = true ->
+  committed_val l p s = None.
+Proof.
+  intros l p s H. unfold committed_val. rewrite slot_val_eq. apply sv_fold_none.
+  rewrite forallb_forall in H. intros r Hr. apply filter_In in Hr. destruct Hr as [Hr Hf].
+  specialize (H r Hr). apply negb_true_iff in Hf. rewrite Hf, orb_false_r in H.
+  apply negb_true_iff in H. exact H.
+Qed.
+
+Lemma committed_not_loser l r :
+  existsb (fun r' => (l_txn r' =? l_txn r) && match l_kind r' with KCommit => true | _ => false end) l = true ->
+  memN (l_txn r) (losers l) = false.
+Proof.
+  intros H. apply memN_false. intros Hin. apply losers_not_ended in Hin.
+  assert (E : ended l (l_txn r) = true).
+  { unfold ended. apply existsb_exists in H. destruct H as (r' & Hr' & Hc).
+    apply existsb_exists. exists r'. split; [exact Hr'|].
+    apply andb_true_iff in Hc. destruct Hc as [Hc1 Hc2]. rewrite Hc1.
+    destruct (l_kind r'); try discriminate; reflexivity. }
+  rewrite E in Hin. discriminate.
+Qed.
+
+Lemma committed_val_survive : forall l p s pre r post,
+  l = pre ++ r :: post -> on_slot p s r = true ->
+  existsb (fun r' => (l_txn r' =? l_txn r) && match l_kind r' with KCommit => true | _ => false end) l = true ->
+  forallb (fun r' => negb (on_slot p s r') || memN (l_txn r') (losers l)) post = true ->
+  forallb (fun r' => match l_kind r' with KNewPage _ p' => negb (p' =? p) | _ => true end) post = true ->
+  committed_val l p s =
+    slot_step (slot_val (filter (fun r' => negb (memN (l_txn r') (losers l))) pre) p s) (l_kind r).
+Proof.
+  intros l p s pre r post El Hs Hc H1 H2.
+  assert (Hnl := committed_not_loser l r Hc).
+  assert (El' : l = (pre ++ [r]) ++ post) by (rewrite <- app_assoc; exact El).
+  rewrite (committed_val_suffix l p s (pre ++ [r]) post El' H1 H2).
+  rewrite filter_app. cbn [filter]. rewrite Hnl. cbn [negb].
+  rewrite (slot_val_eq (_ ++ _)), fold_left_app, <- slot_val_eq. cbn [fold_left].
+  rewrite sv_step_cases, Hs.
+  destruct (is_newpage p r) eqn:En; [|reflexivity].
+  rewrite (newpage_not_slot p s r En) in Hs. discriminate.
+Qed.
+
+Theorem committed_survive_if_undo_ok : forall l disk order p s pre r post,
+  image_wf l disk = true -> others_ok l = true -> loser_rollbacks_marked l = true ->
+  Permutation order (losers l) ->
+  forallb out_ok (undo_all_outs l order (redo l disk)) = true ->
+  l = pre ++ r :: post -> on_slot p s r = true ->
+  existsb (fun r' => (l_txn r' =? l_txn r) && match l_kind r' with KCommit => true | _ => false end) l = true ->
+  forallb (fun r' => negb (on_slot p s r') || memN (l_txn r') (losers l)) post = true ->
+  forallb (fun r' => match l_kind r' with KNewPage _ p' => negb (p' =? p) | _ => true end) post = true ->
+  page_val (recover l order disk) p s =
+    slot_step (slot_val (filter (fun r' => negb (memN (l_txn r') (losers l))) pre) p s) (l_kind r).
+Proof.
+  intros l disk order p s pre r post Hwf Ho Hm Hperm Hok El Hs Hc H1 H2.
+  rewrite (recover_committed_if_undo_ok l disk order Hwf Ho Hm Hperm Hok).
+  apply committed_val_survive with (post := post); assumption.
+Qed.
+
+Theorem losers_only_none_if_undo_ok : forall l disk order p s, image_wf l disk = true ->
+  others_ok l = true -> loser_rollbacks_marked l = true ->
+  Permutation order (losers l) ->
+  forallb out_ok (undo_all_outs l order (redo l disk)) = true ->
+  forallb (fun r => negb (on_slot p s r) || memN (l_txn r) (losers l)) l = true ->
+  page_val (recover l order disk) p s = None.
+Proof.
+  intros l disk order p s Hwf Ho Hm Hperm Hok H.
+  rewrite (recover_committed_if_undo_ok l disk order Hwf Ho Hm Hperm Hok).
+  apply committed_val_losers_only. exact H.
+Qed.
+
+Theorem loser_suffix_reverted_if_undo_ok : forall l disk order p s pre post, image_wf l disk = true ->
+  others_ok l = true -> loser_rollbacks_marked l = true ->
+  Permutation order (losers l) ->
+  forallb out_ok (undo_all_outs l order (redo l disk)) = true ->
+  l = pre ++ post ->
+  forallb (fun r => negb (on_slot p s r) || memN (l_txn r) (losers l)) post = true ->
+  forallb (fun r => match l_kind r with KNewPage _ p' => negb (p' =? p) | _ => true end) post = true ->
+  page_val (recover l order disk) p s =
+    slot_val (filter (fun r => negb (memN (l_txn r) (losers l))) pre) p s.
+Proof.
+  intros l disk order p s pre post Hwf Ho Hm Hperm Hok El H1 H2.
+  rewrite (recover_committed_if_undo_ok l disk order Hwf Ho Hm Hperm Hok).
+  apply committed_val_suffix with (post := post); assumption.
+Qed.
+
+(* ------------------------------------------------------------------ *)
+(** * C20: interrupting and repeating recovery *)
+
+Lemma image_wf_other_disk l disk disk' : image_wf l disk = true -> disk_ok l disk' = true ->
+  image_wf l disk' = true.
+Proof.
+  intros H Hd. destruct (image_wf_parts _ _ H) as (H1 & H2 & H3 & H4 & H5 & H6).
+  unfold image_wf. rewrite H1, H2, H3, H4, Hd, H6. reflexivity.
+Qed.
+
+Theorem recover_any_image_if_undo_ok : forall l disk disk' order order',
+  image_wf l disk = true -> disk_ok l disk' = true ->
+  others_ok l = true -> loser_rollbacks_marked l = true ->
+  Permutation order (losers l) -> Permutation order' (losers l) ->
+  forallb out_ok (undo_all_outs l order (redo l disk)) = true ->
+  forallb out_ok (undo_all_outs l order' (redo l disk')) = true ->
+  forall p s, page_val (recover l order' disk') p s = page_val (recover l order disk) p s.
+Proof.
+  intros l disk disk' order order' Hwf Hd Ho Hm Hp Hp' Hok Hok' p s.
+  rewrite (recover_committed_if_undo_ok l disk order Hwf Ho Hm Hp Hok).
+  apply recover_committed_if_undo_ok; try assumption.
+  eapply image_wf_other_disk; eassumption.
+Qed.
+
+Theorem recover_any_image_grow : forall l disk disk' order order',
+  image_wf l disk = true -> disk_ok l disk' = true ->
+  others_ok l = true -> loser_rollbacks_marked l = true -> loser_updates_grow l = true ->
+  Permutation order (losers l) -> Permutation order' (losers l) ->
+  forall p s, page_val (recover l order' disk') p s = page_val (recover l order disk) p s.
+Proof.
+  intros l disk disk' order order' Hwf Hd Ho Hm Hg Hp Hp' p s.
+  assert (Hwf' := image_wf_other_disk l disk disk' Hwf Hd).
+  apply recover_any_image_if_undo_ok; try assumption; apply undo_ok_grow; assumption.
+Qed.
+
+(** with the same undo order nothing beyond [log_ok], [fresh_pages_ok] and [disk_ok] is needed:
+    the two runs agree on every page, whatever the undo pass does *)
+Lemma peq_undo_chain l : forall fuel ps ps' cur, peq ps ps' ->
+  peq (undo_chain fuel l ps cur) (undo_chain fuel l ps' cur).
+Proof.
+  induction fuel as [|f IH]; intros ps ps' cur H; [exact H|].
+  cbn [undo_chain]. destruct cur as [n|]; [|exact H].
+  destruct (find_lsn l n) as [r|]; [|exact H]. apply IH. apply peq_undo_rec. exact H.
+Qed.
+
+Lemma peq_undo_all l : forall order ps ps', peq ps ps' -> peq (undo_all l order ps) (undo_all l order ps').
+Proof.
+  induction order as [|t order IH]; intros ps ps' H; [exact H|].
+  unfold undo_all. cbn [fold_left]. apply IH. apply peq_undo_chain. exact H.
+Qed.
+
+Theorem recover_any_image_same_order : forall l disk disk' order,
+  log_ok l = true -> fresh_pages_ok l [] = true -> disk_ok l disk = true -> disk_ok l disk' = true ->
+  forall p, get_page (recover l order disk') p = get_page (recover l order disk) p.
+Proof.
+  intros l disk disk' order Hl Hf Hd Hd'. unfold recover. apply peq_undo_all. intros q.
+  rewrite (redo_repeats_fresh l disk' Hl Hf Hd'), (redo_repeats_fresh l disk Hl Hf Hd). reflexivity.
+Qed.
+
+(** redo alone is idempotent, on any pages and for any log *)
+Lemma get_redo_rec ps r q :
+  get_page (redo_rec ps r) q =
+  match page_of (l_kind r) with
+  | Some p => if (p =? q) && (plsn (get_page ps q) <? l_lsn r) then new_content r (get_page ps q) else get_page ps q
+  | None => get_page ps q
+  end.
+Proof.
+  unfold redo_rec. destruct (page_of (l_kind r)) as [p|] eqn:Ep; [|reflexivity].
+  destruct (N.eqb_spec p q) as [->|Hne]; cbn [andb].
+  - destruct (plsn (get_page ps q) <? l_lsn r); [apply get_do_same; exact Ep | reflexivity].
+  - destruct (plsn (get_page ps p) <? l_lsn r); [|reflexivity].
+    apply get_do_other. rewrite Ep. congruence.
+Qed.
+
+Lemma redo_rec_mono ps r q : plsn (get_page ps q) <= plsn (get_page (redo_rec ps r) q).
+Proof.
+  rewrite get_redo_rec. destruct (page_of (l_kind r)) as [p|] eqn:Ep; [|lia].
+  destruct (N.eqb_spec p q) as [->|Hne]; cbn [andb]; [|lia].
+  destruct (N.ltb_spec (plsn (get_page ps q)) (l_lsn r)) as [Hlt|Hge]; [|lia].
+  rewrite plsn_new_content by congruence. lia.
+Qed.
+
+Lemma redo_rec_reach ps r p : page_of (l_kind r) = Some p -> l_lsn r <= plsn (get_page (redo_rec ps r) p).
+Proof.
+  intros Ep. rewrite get_redo_rec, Ep, N.eqb_refl. cbn [andb].
+  destruct (N.ltb_spec (plsn (get_page ps p)) (l_lsn r)) as [Hlt|Hge]; [|lia].
+  rewrite plsn_new_content by congruence. lia.
+Qed.
+
+Lemma redo_mono : forall l ps q, plsn (get_page ps q) <= plsn (get_page (redo l ps) q).
+Proof.
+  induction l as [|r l IH]; intros ps q; [cbn; lia|]. cbn [redo fold_left].
+  specialize (IH (redo_rec ps r) q). unfold redo in IH. pose proof (redo_rec_mono ps r q). lia.
+Qed.
+
+Lemma redo_reach : forall l ps r p, In r l -> page_of (l_kind r) = Some p ->
+  l_lsn r <= plsn (get_page (redo l ps) p).
+Proof.
+  induction l as [|r0 l IH]; intros ps r p Hr Ep; [contradiction|]. cbn [redo fold_left].
+  destruct Hr as [<-|Hr].
+  - pose proof (redo_rec_reach ps r0 p Ep). pose proof (redo_mono l (redo_rec ps r0) p). unfold redo in *. lia.
+  - apply (IH (redo_rec ps r0) r p Hr Ep).
+Qed.
+
+Lemma redo_noop : forall l ps,
+  (forall r p, In r l -> page_of (l_kind r) = Some p -> l_lsn r <= plsn (get_page ps p)) -> redo l ps = ps.
+Proof.
+  induction l as [|r l IH]; intros ps H; [reflexivity|]. cbn [redo fold_left].
+  assert (E : redo_rec ps r = ps).
+  { unfold redo_rec. destruct (page_of (l_kind r)) as [p|] eqn:Ep; [|reflexivity].
+    specialize (H r p (or_introl eq_refl) Ep).
+    destruct (N.ltb_spec (plsn (get_page ps p)) (l_lsn r)) as [Hlt|_]; [lia | reflexivity]. }
+  rewrite E. apply IH. intros x p Hx. apply H. right. exact Hx.
+Qed.
+
+Theorem redo_idem : forall l ps, redo l (redo l ps) = redo l ps.
+Proof. intros l ps. apply redo_noop. intros r p Hr Ep. apply redo_reach; assumption. Qed.
+
+(** C20 [redo_idempotent] (its hypotheses are not needed) *)
+Theorem redo_twice : forall l disk, log_ok l = true -> disk_ok l disk = true ->
+  forall p, get_page (redo l (redo l disk)) p = get_page (redo l disk) p.
+Proof. intros l disk _ _ p. rewrite redo_idem. reflexivity. Qed.
+
+(** C20 [completed_recovery_repeatable] *)
+Theorem recover_empty_iter : forall ps n, Nat.iter n (recover [] []) ps = ps.
+Proof. intros ps n. induction n as [|n IH]; [reflexivity|].
+  change (recover [] [] (Nat.iter n (recover [] []) ps) = ps). rewrite IH. reflexivity.
+Qed.
+
+(** C20 [recover_twice_refuted] *)
+Theorem recover_twice_fails : exists l disk order,
+  image_wf l disk = true /\ Permutation order (losers l) /\
+  forallb out_ok (recover_outs l order (recover l order disk)) = false.
+Proof.
+  exists [ mkR 0 1 None KBegin; mkR 1 1 (Some 0) (KNewPage 0 5); mkR 2 1 (Some 1) (KInsert 5 0 [1;2;3]);
+           mkR 3 1 (Some 2) KCommit; mkR 4 3 None KBegin; mkR 5 3 (Some 4) (KInsert 5 1 [8;8]) ], [], [3].
+  split; [vm_compute; reflexivity|]. split; [|vm_compute; reflexivity].
+  match goal with |- Permutation _ ?x => assert (E : x = [3]) by (vm_compute; reflexivity); rewrite E end.
+  apply Permutation_refl.
+Qed.
+
+(** C20 [redo_writes_keep_disk_ok], with the additional hypothesis [lsn0_ok] (implied by
+    [fresh_pages_ok l []]; false without it: see [redo_writes_counterexample]) *)
+Lemma redo_page_local q : forall l ps ps', get_page ps q = get_page ps' q ->
+  get_page (redo l ps) q = get_page (redo l ps') q.
+Proof.
+  induction l as [|r l IH]; intros ps ps' H; [exact H|]. cbn [redo fold_left]. apply IH.
+  rewrite !get_redo_rec, H. reflexivity.
+Qed.
+
+Lemma redo_sync_page l disk q l21 l22 : log_ok l = true -> lsn0_ok l = true -> l = l21 ++ l22 ->
+  get_page disk q = get_page (replay l21 []) q ->
+  get_page (redo l disk) q = get_page (replay l []) q.
+Proof.
+  intros Hl H0 El Hq.
+  assert (E1 : get_page [(q, get_page disk q)] q = get_page disk q)
+    by (unfold get_page at 1; cbn [aget]; rewrite N.eqb_refl; reflexivity).
+  rewrite (redo_page_local q l disk [(q, get_page disk q)]) by (symmetry; exact E1).
+  apply (redo_sync l [] None _ Hl bounded_nil H0). intros q'.
+  destruct (N.eq_dec q' q) as [->|Hne].
+  - exists l21, l22. split; [exact El|]. rewrite E1. exact Hq.
+  - exists [], l. split; [reflexivity|]. unfold get_page. cbn [aget replay fold_left].
+    destruct (N.eqb_spec q q') as [E|_]; [congruence | reflexivity].
+Qed.
+
+Lemma replay_reach : forall l ps last r q, log_ok_from l ps last = true -> bounded ps last ->
+  In r l -> page_of (l_kind r) = Some q -> l_lsn r <= plsn (get_page (replay l ps) q).
+Proof.
+  intros l ps last r q Hl Hb Hr Ep. apply in_split in Hr. destruct Hr as (a & b & ->).
+  apply log_ok_from_app in Hl. destruct Hl as [Ha Hrb].
+  assert (Bb := bounded_replay _ _ _ Ha Hb).
+  apply log_ok_from_cons in Hrb. destruct Hrb as (C1 & C2 & C3).
+  rewrite replay_app. change (replay (r :: b) (replay a ps)) with (replay b (do_rec (replay a ps) r)).
+  pose proof (plsn_mono b (do_rec (replay a ps) r) _ q C3 (bounded_step _ _ _ Bb C1)) as M.
+  rewrite get_do_same in M by exact Ep. rewrite plsn_new_content in M by congruence. exact M.
+Qed.
+
+Lemma redo_page_noop q : forall l ps,
+  (forall r, In r l -> page_of (l_kind r) = Some q -> l_lsn r <= plsn (get_page ps q)) ->
+  get_page (redo l ps) q = get_page ps q.
+Proof.
+  induction l as [|r l IH]; intros ps H; [reflexivity|]. cbn [redo fold_left].
+  assert (E : get_page (redo_rec ps r) q = get_page ps q).
+  { rewrite get_redo_rec. destruct (page_of (l_kind r)) as [p|] eqn:Ep; [|reflexivity].
+    destruct (N.eqb_spec p q) as [->|_]; cbn [andb]; [|reflexivity].
+    specialize (H r (or_introl eq_refl) Ep).
+    destruct (N.ltb_spec (plsn (get_page ps q)) (l_lsn r)) as [Hlt|_]; [lia | reflexivity]. }
+  fold (redo l (redo_rec ps r)). rewrite (IH (redo_rec ps r)); [exact E|].
+  intros x Hx Ex. rewrite E. apply H; [right; exact Hx | exact Ex].
+Qed.
+
+Lemma In_firstn {A} : forall n (l : list A) x, In x (firstn n l) -> In x l.
+Proof.
+  induction n as [|n IH]; intros [|y l] x H; cbn in H; try contradiction.
+  destruct H as [<-|H]; [left; reflexivity | right; apply IH; exact H].
+Qed.
+
+Lemma forallb_firstn {A} (f : A -> bool) n l : forallb f l = true -> forallb f (firstn n l) = true.
+Proof.
+  intros H. rewrite forallb_forall in *. intros x Hx. apply H. eapply In_firstn; exact Hx.
+Qed.
+
+Lemma astate_beq_refl : forall a, astate_beq a a = true.
+Proof.
+  induction a as [|[[b m]|] a IH]; cbn; [reflexivity| |exact IH].
+  rewrite eqb_bytes_refl, Bool.eqb_reflx, IH. reflexivity.
+Qed.
+
+Theorem redo_writes_ok_if_lsn0 : forall l disk written, log_ok l = true -> lsn0_ok l = true ->
+  disk_ok l disk = true ->
+  (forall p pg, In (p, pg) written -> exists k, (k <= length l)%nat /\ pg = get_page (redo (firstn k l) disk) p) ->
+  disk_ok l (written ++ disk) = true.
+Proof.
+  intros l disk written Hl H0 Hd Hw. unfold disk_ok. rewrite forallb_app. fold (disk_ok l disk).
+  rewrite Hd, andb_true_r. apply forallb_forall. intros [p pg] Hin. cbn [fst snd].
+  destruct (Hw p pg Hin) as (k & Hk & ->).
+  assert (J : exists j, (j <= length l)%nat /\
+              get_page (redo (firstn k l) disk) p = get_page (replay (firstn j l) []) p).
+  { destruct (disk_ok_page l disk p Hd) as (l21 & l22 & El & Hq).
+    assert (Hlk : log_ok (firstn k l) = true).
+    { unfold log_ok in *. rewrite <- (firstn_skipn k l) in Hl. apply log_ok_from_app in Hl. tauto. }
+    destruct (Nat.le_gt_cases (length l21) k) as [Hle|Hgt].
+    - exists k. split; [exact Hk|].
+      apply (redo_sync_page (firstn k l) disk p l21 (firstn (k - length l21) l22)); try assumption.
+      + apply forallb_firstn. exact H0.
+      + rewrite El at 1. rewrite firstn_app, (firstn_all2 l21) by exact Hle. reflexivity.
+    - exists (length l21). split; [rewrite El, app_length; lia|].
+      assert (Ef : firstn (length l21) l = l21).
+      { rewrite El, firstn_app, Nat.sub_diag, firstn_all, firstn_O. apply app_nil_r. }
+      rewrite Ef, <- Hq. apply redo_page_noop. intros r Hr Ep. rewrite Hq.
+      assert (Hr' : In r l21).
+      { rewrite El, firstn_app in Hr. replace (k - length l21)%nat with 0%nat in Hr by lia.
+        rewrite firstn_O, app_nil_r in Hr. eapply In_firstn; exact Hr. }
+      apply (replay_reach l21 [] None r p); try assumption; [|apply bounded_nil].
+      unfold log_ok in Hl. rewrite El in Hl. apply log_ok_from_app in Hl. tauto. }
+  destruct J as (j & Hj & E). unfold page_is_prefix_state. apply existsb_exists. exists j.
+  split; [apply in_seq; lia|]. rewrite <- E, N.eqb_refl, astate_beq_refl. reflexivity.
+Qed.
+
+Theorem redo_writes_ok_fresh : forall l disk written, log_ok l = true -> fresh_pages_ok l [] = true ->
+  disk_ok l disk = true ->
+  (forall p pg, In (p, pg) written -> exists k, (k <= length l)%nat /\ pg = get_page (redo (firstn k l) disk) p) ->
+  disk_ok l (written ++ disk) = true.
+Proof.
+  intros l disk written Hl Hf. apply redo_writes_ok_if_lsn0; [exact Hl|]. apply fresh_lsn0_ok; assumption.
+Qed.
+
+(* ------------------------------------------------------------------ *)
+(** * Simple sufficient conditions for the additional hypotheses *)
+
+Lemma others_ok_no_other l : forallb (fun r => has_lsn (l_kind r)) l = true -> others_ok l = true.
+Proof.
+  intros H. unfold others_ok. rewrite forallb_forall in *. intros r Hr. rewrite (H r Hr). reflexivity.
+Qed.
+
+Lemma rollbacks_marked_no_rollback ls : forall l ps,
+  forallb (fun r => negb (memN (l_txn r) ls && match l_kind r with KRollback _ _ => true | _ => false end)) l = true ->
+  rollbacks_marked_from ls l ps = true.
+Proof.
+  induction l as [|r l IH]; intros ps H; [reflexivity|].
+  cbn [forallb] in H. apply andb_true_iff in H. destruct H as [H1 H2].
+  cbn [rollbacks_marked_from]. rewrite (IH _ H2), andb_true_r.
+  destruct (l_kind r); try reflexivity. rewrite andb_true_r in H1. rewrite H1. reflexivity.
+Qed.
+
+Lemma loser_rollbacks_marked_no_rollback l :
+  forallb (fun r => negb (memN (l_txn r) (losers l) && match l_kind r with KRollback _ _ => true | _ => false end)) l = true ->
+  loser_rollbacks_marked l = true.
+Proof. apply rollbacks_marked_no_rollback. Qed.
+
+(* ------------------------------------------------------------------ *)
+(** * Counterexamples to the statements with [image_wf] / [log_ok] alone *)
+
+(** [redo_repeats] (C01 [redo_repeats_history]) fails when the first record of a page has LSN 0
+    and is not the page's creation: redo skips it (a never-written page has LSN 0). *)
+Example redo_repeats_counterexample :
+  let l := [mkR 0 1 None (KInsert 5 0 [1])] in
+  log_ok l = true /\ disk_ok l [] = true /\
+  get_page (redo l []) 5 = mkAP 0 [] /\ get_page (replay l []) 5 = mkAP 0 [Some ([1], false)].
+Proof. vm_compute. repeat split. Qed.
+
+(** the same log refutes C20 [redo_writes_keep_disk_ok]: the page written after the
+    whole redo pass is not a prefix state *)
+Example redo_writes_counterexample :
+  let l := [mkR 0 1 None (KInsert 5 0 [1]); mkR 1 1 (Some 0) (KInsert 5 1 [2])] in
+  log_ok l = true /\ disk_ok l [] = true /\
+  disk_ok l ([(5, get_page (redo (firstn 2 l) []) 5)] ++ []) = false.
+Proof. vm_compute. repeat split. Qed.
+
+(** [recover_committed]: a [KOther] record whose LSN field collides with the LSN of an
+    unfinished transaction's record hides that record from the undo walk *)
+Example recover_committed_counterexample_other :
+  let l := [mkR 5 9 None KOther; mkR 0 1 None KBegin; mkR 1 1 (Some 0) (KNewPage 0 5); mkR 2 1 (Some 1) KCommit;
+            mkR 4 3 None KBegin; mkR 5 3 (Some 4) (KInsert 5 0 [8;8])] in
+  image_wf l [] = true /\ losers l = [3] /\ forallb out_ok (recover_outs l [3] []) = true /\
+  page_val (recover l [3] []) 5 0 = Some ([8;8], false) /\ committed_val l 5 0 = None /\
+  others_ok l = false.
+Proof. vm_compute. repeat split. Qed.
+
+(** [recover_committed]: [rec_ok] lets a ROLLBACKDELETE record act on a row that is not
+    delete-marked; its undo (MarkDelete) then leaves the committed row marked *)
+Example recover_committed_counterexample_rollback :
+  let l := [mkR 0 1 None KBegin; mkR 1 1 (Some 0) (KNewPage 0 5); mkR 2 1 (Some 1) (KInsert 5 0 [1;2;3]);
+            mkR 3 1 (Some 2) KCommit; mkR 4 3 None KBegin; mkR 5 3 (Some 4) (KRollback 5 0)] in
+  image_wf l [] = true /\ losers l = [3] /\ forallb out_ok (recover_outs l [3] []) = true /\
+  page_val (recover l [3] []) 5 0 = Some ([1;2;3], true) /\ committed_val l 5 0 = Some ([1;2;3], false) /\
+  loser_rollbacks_marked l = false.
+Proof. vm_compute. repeat split. Qed.
+
+(** [recover_committed] and [restart_ok]: an unfinished transaction shrank a row, a committed
+    transaction used the freed space, the undo of the update does not fit *)
+Example recover_committed_counterexample_space :
+  let big := repeat 1 2000 in
+  let l := [mkR 0 1 None KBegin; mkR 1 1 (Some 0) (KNewPage 0 5); mkR 2 1 (Some 1) (KInsert 5 0 big);
+            mkR 3 1 (Some 2) (KInsert 5 1 big); mkR 4 1 (Some 3) KCommit;
+            mkR 5 3 None KBegin; mkR 6 3 (Some 5) (KUpdate 5 0 big [7]);
+            mkR 7 2 None KBegin; mkR 8 2 (Some 7) (KInsert 5 2 big); mkR 9 2 (Some 8) KCommit] in
+  image_wf l [] = true /\ losers l = [3] /\ others_ok l = true /\ loser_rollbacks_marked l = true /\
+  forallb out_ok (recover_outs l [3] []) = false /\
+  page_val (recover l [3] []) 5 0 = Some ([7], false) /\ committed_val l 5 0 = Some (big, false) /\
+  loser_updates_grow l = false.
+Proof. vm_compute. repeat split. Qed.
+
+(** the additional hypotheses hold on the non-vacuity images of Props/C01.v, C02.v, C20.v *)
+Example extra_hyps_c01 :
+  let l := [ mkR 0 1 None KBegin; mkR 1 1 (Some 0) (KNewPage 0 5); mkR 2 1 (Some 1) (KInsert 5 0 [1;2;3]);
+             mkR 3 1 (Some 2) KCommit;
+             mkR 4 2 None KBegin; mkR 5 2 (Some 4) (KUpdate 5 0 [1;2;3] [9;9;9;9]); mkR 6 2 (Some 5) (KInsert 5 1 [7]);
+             mkR 7 2 (Some 6) KCommit;
+             mkR 8 3 None KBegin; mkR 9 3 (Some 8) (KInsert 5 2 [8;8]);
+             mkR 10 4 None KBegin; mkR 11 4 (Some 10) (KMark 5 1); mkR 12 4 (Some 11) (KApply 5 1 [7]); mkR 13 4 (Some 12) KCommit ] in
+  others_ok l = true /\ loser_rollbacks_marked l = true /\ loser_updates_grow l = true.
+Proof. vm_compute. repeat split. Qed.
+
+Example extra_hyps_c02 :
+  let l := [ mkR 0 1 None KBegin; mkR 1 1 (Some 0) (KNewPage 0 5); mkR 2 1 (Some 1) (KInsert 5 0 [1;2;3]);
+             mkR 3 1 (Some 2) KCommit;
+             mkR 4 2 None KBegin; mkR 5 2 (Some 4) (KUpdate 5 0 [1;2;3] [4;4;4;4]); mkR 6 2 (Some 5) (KInsert 5 1 [7]);
+             mkR 7 2 (Some 6) (KApply 5 1 [7]); mkR 8 2 (Some 7) (KUpdate 5 0 [4;4;4;4] [1;2;3]); mkR 9 2 (Some 8) KAbort;
+             mkR 10 3 None KBegin; mkR 11 3 (Some 10) (KMark 5 0) ] in
+  others_ok l = true /\ loser_rollbacks_marked l = true /\ loser_updates_grow l = true.
+Proof. vm_compute. repeat split. Qed.
+
+Example extra_hyps_c20 :
+  let l := [ mkR 0 1 None KBegin; mkR 1 1 (Some 0) (KNewPage 0 5); mkR 2 1 (Some 1) (KInsert 5 0 [1;2;3]);
+             mkR 3 1 (Some 2) KCommit; mkR 4 3 None KBegin; mkR 5 3 (Some 4) (KInsert 5 1 [8;8]) ] in
+  others_ok l = true /\ loser_rollbacks_marked l = true /\ loser_updates_grow l = true.
+Proof. vm_compute. repeat split. Qed.
+
+(** [recover_any_image] (C20 [recover_interruptible_partial]): with two unfinished transactions on a
+    full page the result depends on the undo order (undoing the insert first makes room for the
+    undo of the shrinking update) *)
+Example recover_any_image_counterexample :
+  let big := repeat 1 2000 in
+  let l := [mkR 0 1 None KBegin; mkR 1 1 (Some 0) (KNewPage 0 5); mkR 2 1 (Some 1) (KInsert 5 0 big);
+            mkR 3 1 (Some 2) (KInsert 5 1 big); mkR 4 1 (Some 3) KCommit;
+            mkR 5 3 None KBegin; mkR 6 3 (Some 5) (KUpdate 5 0 big [7]);
+            mkR 7 4 None KBegin; mkR 8 4 (Some 7) (KInsert 5 2 big)] in
+  image_wf l [] = true /\ losers l = [3; 4] /\
+  page_val (recover l [3; 4] []) 5 0 = Some ([7], false) /\
+  page_val (recover l [4; 3] []) 5 0 = Some (big, false).
+Proof. vm_compute. repeat split. Qed.
